@@ -24,7 +24,7 @@ using geod_ode::Point; using geod_ode::Traj;
 
 static const double SENT = -7.25e33;
 struct DOut { double lat2, lon2, azi2, s12, m12, M12, M21, S12, a12; };
-struct IOut { double s12, azi1, azi2, m12, M12, M21, S12, a12; };
+struct IOut { double s12, azi1, azi2, m12, M12, M21, S12, a12, lon2; };
 static const unsigned MASK = Geodesic::LATITUDE | Geodesic::LONGITUDE | Geodesic::AZIMUTH | Geodesic::DISTANCE |
                              Geodesic::REDUCEDLENGTH | Geodesic::GEODESICSCALE | Geodesic::AREA;
 
@@ -40,11 +40,13 @@ template <class G> static DOut dcall(const G& g, int form, bool arcmode, double 
 }
 template <class G> static IOut icall(const G& g, int form, double lat1, double lon1, double lat2, double lon2) {
   IOut r; r.s12 = r.azi1 = r.azi2 = r.m12 = r.M12 = r.M21 = r.S12 = SENT;
+  r.lon2 = lon2;
   if (form == 0) r.a12 = g.GenInverse(lat1, lon1, lat2, lon2, Geodesic::ALL, r.s12, r.azi1, r.azi2, r.m12, r.M12, r.M21, r.S12);
   else {
     auto l = g.InverseLine(lat1, lon1, lat2, lon2, Geodesic::ALL);
     double la, lo; r.azi1 = l.Azimuth();
     r.a12 = l.GenPosition(false, l.Distance(), MASK, la, lo, r.azi2, r.s12, r.m12, r.M12, r.M21, r.S12);
+    r.lon2 = lo;                      // S12 of a line position refers to the longitude that position reports (matters at a pole)
   }
   return r;
 }
@@ -60,13 +62,14 @@ static const char* svname(int sv) { return sv == 0 ? "series" : (sv == 1 ? "exac
 // expected S12 handling.  For geodesics with L != 0 the oracle value is unambiguous.  For exactly meridional ones S12 = c2 (alp2 - alp1):
 // alp2 at a pole end point is fixed by the documented convention from the longitude lon2 that the caller has or got; the result is compared
 // modulo 2 pi c2, and where sin(azi1) = 0 also up to sign (the side on which a pole is passed is not documented).
-static ld area_err(const geodtab::Ell& E, const Point<ld>& p, double azi1, double lon2rel, double S12lib, bool& conventional) {
+static ld area_err(const geodtab::Ell& E, const Point<ld>& p, double azi1, double lon2rel, double S12lib, bool& conventional, bool atpole = false) {
   const ld c2 = E.e.c2(), P = geod_ode::pi<ld>();
   conventional = false;
-  if (!p.meridional && !p.endpole) return fabsl((ld)S12lib - p.S12);
+  const bool endpole = p.endpole || atpole;          // atpole: the end point is a pole by the caller's data (the oracle may stop a hair before / after it)
+  if (!p.meridional && !endpole) return fabsl((ld)S12lib - p.S12);
   conventional = true;
   ld s1, c1; geod_ode::sincosd<ld>(azi1, s1, c1); ld a1 = atan2l(s1, c1), a2;
-  if (p.endpole) {
+  if (endpole) {
     ld r[3], N[3], Ev[3]; E.e.frame(p.sinlat > 0 ? 90.0 : -90.0, lon2rel, r, N, Ev);
     a2 = atan2l(p.t[0] * Ev[0] + p.t[1] * Ev[1] + p.t[2] * Ev[2], p.t[0] * N[0] + p.t[1] * N[1] + p.t[2] * N[2]);
   } else a2 = p.alp2;
@@ -94,10 +97,13 @@ int main(int argc, char** argv) {
   auto tolarea = [&](const geodtab::Ell& E, int sv) { return sv == 0 ? geodtab::tol_area_series(E) : geodtab::tol_area_exact(E); };
   // S12 is the area of the quadrilateral closed by the meridians of the end points, so a position uncertainty eps of an end point at
   // distance rho from the axis is an uncertainty c2 eps / rho of S12 (unbounded at a pole): conditioning term added to the S12 bound
-  auto tolS12 = [&](const geodtab::Ell& E, int sv, ld sc, ld rho) { ld t = tolpos(E, sv) * sc; return tolarea(E, sv) * sc + E.e.c2() * (rho > t / 3 ? t / rho : 3.0L); };
+  auto tolS12 = [&](const geodtab::Ell& E, int sv, ld sc, ld rho) { ld t = tolpos(E, sv) * sc; return tolarea(E, sv) * sc + E.e.c2() * (rho > t / 6.3L ? t / rho : 6.3L); };
   auto rho_of = [&](const geodtab::Ell& E, double lat) { ld sp, cp; geod_ode::sincosd<ld>(lat, sp, cp); return E.e.a * cp / sqrtl(1 - E.e.e2 * sp * sp); };
   // m12, M12, M21: no documented figure; DESIGN.md Appendix B proposed 2 x position bound (/a).  Calibrated multipliers, frozen:
-  const ld KM_m = 2, KM_M = 2;
+  const ld KM_m[3] = {2, 2, 2}, KM_M[3] = {2, 2, 2};
+  // M12 and M21 are slopes of Jacobi fields: an along-track error eps changes them by up to sqrt(K_max) eps, and
+  // a sqrt(K_max) = max(a/b, b/a) for an ellipsoid of revolution (16 for b/a = 1/16 or 16, 1.003 for WGS84)
+  auto kappa = [&](const geodtab::Ell& E) { return std::max(E.e.f1, 1 / E.e.f1); };
 
   // =========================================================================================== direct + split
   const std::vector<double> lats = geodlat::direct_lats(), azis = geodlat::direct_azis();
@@ -129,7 +135,8 @@ int main(int argc, char** argv) {
         if (last != 0) {                                       // oracle self check (second order / step size), Jacobi fields and area included
           Point<ld> p1 = tr.point(), p2 = geod_ode::follow<ld>(E.e, lat1, azi1, last, true, 38, 1e-23L, 0.6L);
           ld sc = std::max<ld>(std::max<ld>(1, fabsl(last) / (2 * E.Q)), fabsl(lasta) / 180), tp = std::min(tolpos(E, 0), tolpos(E, 1)) * sc, ta = std::min(tolarea(E, 0), tolarea(E, 1)) * sc;
-          ld rel = std::max(std::max(fabsl(p1.m12 - p2.m12) / (2 * tp), E.e.a * std::max(fabsl(p1.M12 - p2.M12), fabsl(p1.M21 - p2.M21)) / (2 * tp)), p1.meridional ? 0 : fabsl(p1.S12 - p2.S12) / ta);
+          ld cond = std::max<ld>(std::max<ld>(1, fabsl(p1.m12) / E.e.a), std::max(fabsl(p1.M12), fabsl(p1.M21)));
+          ld rel = std::max(std::max(fabsl(p1.m12 - p2.m12) / (2 * tp * cond), E.e.a * std::max(fabsl(p1.M12 - p2.M12), fabsl(p1.M21 - p2.M21)) / (2 * tp * cond * kappa(E))), p1.meridional ? 0 : fabsl(p1.S12 - p2.S12) / ta);
           ctx.worstf("oracle.two_stepsizes.err_over_tol", (double)rel, [&] { return E.name + " lat1=" + fmt(lat1) + " azi1=" + fmt(azi1) + " s12=" + fmtl(last); });
           if (!(rel < 0.25)) { fprintf(stderr, "oracle self-check failed: %s lat1=%g azi1=%g s=%Lg rel=%Lg\n", E.name.c_str(), lat1, azi1, last, rel); return 2; }   // (long double round-off times the growth of the Jacobi fields over 7 circuits reaches a few % of the bound)
         }
@@ -139,7 +146,8 @@ int main(int argc, char** argv) {
         const ld sc = std::max<ld>(std::max<ld>(1, fabsl(l.s) / (2 * E.Q)), fabsl(l.a12deg) / 180);
         for (int sv = 0; sv < 3; ++sv) {
           if (sv == 0 && !E.series) continue;
-          const ld tm = KM_m * tolpos(E, sv) * sc, tM = KM_M * tolpos(E, sv) * sc / E.e.a, tS = tolS12(E, sv, sc, hypotl(p.r[0], p.r[1])); const char* svn = svname(sv);
+          const ld cond = std::max<ld>(std::max<ld>(1, fabsl(p.m12) / E.e.a), std::max(fabsl(p.M12), fabsl(p.M21)));     // growth of the Jacobi fields (> 1 on prolate ellipsoids)
+          const ld tm = KM_m[sv] * tolpos(E, sv) * sc * cond, tM = KM_M[sv] * tolpos(E, sv) * sc * cond * kappa(E) / E.e.a, tS = tolS12(E, sv, sc, hypotl(p.r[0], p.r[1])); const char* svn = svname(sv);
           for (int form = 0; form < 3; ++form) {
             Ctx::Case cs(ctx);
             DOut o = S.d(sv, form, l.arc, lat1, lon1, azi1, l.v); ++ncalls;
@@ -155,7 +163,7 @@ int main(int argc, char** argv) {
             if (!(em <= tm)) bad("m12", "m12 " + fx(o.m12) + " true " + fmtl(p.m12) + " tol " + fmtl(tm));
             if (!(e12 <= tM)) bad("M12", "M12 " + fx(o.M12) + " true " + fmtl(p.M12) + " tol " + fmtl(tM));
             if (!(e21 <= tM)) bad("M21", "M21 " + fx(o.M21) + " true " + fmtl(p.M21) + " tol " + fmtl(tM));
-            bool conv; ld eS = area_err(E, p, azi1, (double)((ld)o.lon2 - (ld)lon1), o.S12, conv);
+            bool conv; ld eS = area_err(E, p, azi1, (double)((ld)o.lon2 - (ld)lon1), o.S12, conv, fabs(o.lat2) == 90);
             if (conv) ctx.count("direct.S12.meridional_or_pole_end_compared_by_convention");
             ctx.worstf(std::string("direct.S12.err_over_tol.") + svn, (double)(eS / tS), where);
             if (!(eS <= tS)) bad("S12", "S12 " + fx(o.S12) + " true " + fmtl(p.S12) + " (difference " + fmtl(eS) + " m^2, tol " + fmtl(tS) + ")");
@@ -224,7 +232,7 @@ int main(int argc, char** argv) {
       const bool freeazi = (pole1 && pole2 && P.lat1 == -P.lat2) || (E.f == 0 && P.lat1 == -P.lat2 && l12 == 180);
       for (int sv = 0; sv < 3; ++sv) {
         if (sv == 0 && !E.series) continue;
-        const ld tm = KM_m * tolpos(E, sv), tM = KM_M * tolpos(E, sv) / E.e.a, tS = tolS12(E, sv, 1, std::min(rho_of(E, P.lat1), rho_of(E, P.lat2))); const char* svn = svname(sv);
+        ld tm = KM_m[sv] * tolpos(E, sv), tM = KM_M[sv] * tolpos(E, sv) * kappa(E) / E.e.a; const ld tS = tolS12(E, sv, 1, std::min(rho_of(E, P.lat1), rho_of(E, P.lat2))); const char* svn = svname(sv);
         IOut base;
         for (int form = 0; form < 2; ++form) {
           Ctx::Case cs(ctx);
@@ -235,24 +243,29 @@ int main(int argc, char** argv) {
           auto bad = [&](const char* kind, const std::string& msg) {
             char inp[160]; snprintf(inp, sizeof inp, "%.12g %.12g %.12g %.12g", P.lat1, P.lon1, P.lat2, P.lon2);
             const bool nearanti = R.a12 >= 179.9 || l12 >= 179.9L;
-            ctx.fail(key(kind), where() + ": " + msg, {{"kind", kind}, {"ell", E.name}, {"solver", svn}, {"family", std::string(1, P.fam)}, {"input", inp}, {"regime", nearanti ? "near-antipodal" : "general"}, {"form", form ? "InverseLine" : "Inverse"}});
+            ctx.fail(key((std::string(kind) + ":" + msg.substr(0, 3)).c_str()), where() + ": " + msg, {{"kind", kind}, {"ell", E.name}, {"solver", svn}, {"family", std::string(1, P.fam)}, {"input", inp}, {"regime", nearanti ? "near-antipodal" : "general"}, {"form", form ? "InverseLine" : "Inverse"}});
           };
           bool fin = true; for (double x : {R.s12, R.azi1, R.azi2, R.m12, R.M12, R.M21, R.S12}) if (!std::isfinite(x) || x == SENT) fin = false;
           if (!fin) { bad("nonfinite", "m12=" + fmt(R.m12) + " M12=" + fmt(R.M12) + " M21=" + fmt(R.M21) + " S12=" + fmt(R.S12)); continue; }
           // the quantities of the geodesic the library returned: follow (azi1, s12) with the oracle
           Traj<ld> tf(E.e, 30, 1e-22L, 1.0L, true); tf.init(P.lat1, R.azi1); tf.advance((ld)R.s12 / E.e.a); Point<ld> p = tf.point(); ++ntraj;
+          { ld cond = std::max<ld>(std::max<ld>(1, fabsl(p.m12) / E.e.a), std::max(fabsl(p.M12), fabsl(p.M21))); tm = KM_m[sv] * tolpos(E, sv) * cond; tM = KM_M[sv] * tolpos(E, sv) * cond * kappa(E) / E.e.a; }
           ld em = fabsl((ld)R.m12 - p.m12), e12 = fabsl((ld)R.M12 - p.M12), e21 = fabsl((ld)R.M21 - p.M21);
           ctx.worstf(std::string("inverse.m12.err_over_tol.") + svn, (double)(em / tm), where);
           ctx.worstf(std::string("inverse.M12.err_over_tol.") + svn, (double)(e12 / tM), where);
           ctx.worstf(std::string("inverse.M21.err_over_tol.") + svn, (double)(e21 / tM), where);
-          if (!(em <= tm)) bad("m12", "m12 " + fx(R.m12) + " true " + fmtl(p.m12) + " tol " + fmtl(tm));
-          if (!(e12 <= tM)) bad("M12", "M12 " + fx(R.M12) + " true " + fmtl(p.M12) + " tol " + fmtl(tM));
-          if (!(e21 <= tM)) bad("M21", "M21 " + fx(R.M21) + " true " + fmtl(p.M21) + " tol " + fmtl(tM));
+          // nearly antipodal pairs: an excess of up to 64 x the bound is classed separately (known_findings.d/C03.json: the exact
+          // solver's s12 is off by up to 2.5 um there, and m12, M12, M21 follow)
+          const bool nearanti = R.a12 >= 179.9 || l12 >= 179.9L;
+          auto acc = [&](const char* kind, ld err, ld tol) { return (nearanti && err <= 64 * tol) ? "antipodal-accuracy" : kind; };
+          if (!(em <= tm)) bad(acc("m12", em, tm), "m12 " + fx(R.m12) + " true " + fmtl(p.m12) + " tol " + fmtl(tm));
+          if (!(e12 <= tM)) bad(acc("M12", e12, tM), "M12 " + fx(R.M12) + " true " + fmtl(p.M12) + " tol " + fmtl(tM));
+          if (!(e21 <= tM)) bad(acc("M21", e21, tM), "M21 " + fx(R.M21) + " true " + fmtl(p.M21) + " tol " + fmtl(tM));
           if (!freeazi) {
-            bool conv; ld eS = area_err(E, p, R.azi1, (double)((ld)P.lon2 - (ld)P.lon1), R.S12, conv);
+            bool conv; ld eS = area_err(E, p, R.azi1, (double)((ld)R.lon2 - (ld)P.lon1), R.S12, conv, pole2);
             if (conv) ctx.count("inverse.S12.meridional_or_pole_end_compared_by_convention");
             ctx.worstf(std::string("inverse.S12.err_over_tol.") + svn, (double)(eS / tS), where);
-            if (!(eS <= tS)) bad("S12", "S12 " + fx(R.S12) + " true " + fmtl(p.S12) + " (difference " + fmtl(eS) + " m^2, tol " + fmtl(tS) + ")");
+            if (!(eS <= tS)) bad(acc("S12", eS, tS), "S12 " + fx(R.S12) + " true " + fmtl(p.S12) + " (difference " + fmtl(eS) + " m^2, tol " + fmtl(tS) + ")");
           } else ctx.count("inverse.S12.skipped_free_azimuth");
           if (ctx.want_sample() && form == 0 && P.fam == 'a') ctx.sample(where() + " -> m12=" + fmt(R.m12) + " M12=" + fmt(R.M12) + " S12=" + fmt(R.S12) + " | oracle m12=" + fmtl(p.m12) + " S12=" + fmtl(p.S12));
         }
@@ -323,7 +336,8 @@ int main(int argc, char** argv) {
           ref = 2 * atan2l(det, den) * E.e.a * E.e.a; how = "spherical solid-angle formula";
         }
         // area (counter-clockwise positive) = -sum S12  modulo half the ellipsoid area
-        ld d = fabsl(remainderl(-sl - ref, A0 / 2)), tl = tS * v.size();
+        ld tl = 0; for (size_t q = 0; q < v.size(); ++q) tl += tolS12(E, sv, 1, std::min(rho_of(E, pts[v[q]].lat), rho_of(E, pts[v[(q + 1) % v.size()]].lat)));
+        ld d = fabsl(remainderl(-sl - ref, A0 / 2));
         ctx.worstf(std::string("polygon.closure.err_over_tol.") + svn, (double)(d / tl), [&] { return E.name + " polygon " + id; });
         if (!(d <= tl)) ctx.fail("e" + std::to_string(ei) + "/" + svn + "/poly" + id, E.name + " " + svn + " polygon " + id + ": -sum S12 = " + fmtl(-sl) + " but area (" + how + ") = " + fmtl(ref) + " modulo " + fmtl(A0 / 2), {{"kind", "polygon"}, {"ell", E.name}, {"solver", svn}});
         // orientation reversal negates the sum
